@@ -7,6 +7,8 @@
   C18.5 creation time is serialised with a UTC-correct idiom wherever it is hashed or exported
   C18.6 the public twin is built from copies of the private packet's own public terms
   C18.7 issuer key id / issuer fingerprint / recipient key id are those of the operating key itself
+  C18.8 every key packet rebuilt from another one (pubkey, __copy__, sub-key conversion) takes created / pkalg / keymaterial from ONE source
+  C18.9 __copy__ of the key material classes and of the field objects they serialise carries every attribute the serialiser reads
 
 Every rule is decided on interpreter values (byte terms, call / store events, return values); nothing compares source text,
 local names or statement shapes.
@@ -75,6 +77,8 @@ def run(rep, prog, tier):
     rep.rule('C18.4', 'key id = last 16 hex digits, short id = last 8; PGPKey.fingerprint delegates to the packet', floor=3)
     rep.rule('C18.6', 'the public twin is built from copies of the private packet\'s own public terms (so it has the same fingerprint)', floor=20)
     rep.rule('C18.7', 'issuer key id, issuer fingerprint and recipient key id written are those of the operating key itself', floor=8)
+    rep.rule('C18.8', 'a key packet rebuilt from another takes creation time, algorithm and key material from that one packet', floor=3)
+    rep.rule('C18.9', 'copies of public key material and of its field objects carry every attribute their serialiser reads', floor=8)
     rep.rule('C18.5', 'creation time is serialised with a UTC-correct idiom wherever it is hashed or exported', floor=2)
     rep.assume('int_to_bytes(x, n) emits max(n, byte_length(x), 1) big-endian octets (pgpy.types.PGPObject; checked under C09)')
 
@@ -222,6 +226,8 @@ def run(rep, prog, tier):
               'the key object reports the fingerprint of its key packet', where=kf.where, expected='self._key.fingerprint', found=rets)
     families.check_pubkey_derivation(rep, prog, 'C18.6')
     families.check_ids_rooted_at_self(rep, prog, 'C18.7')
+    families.check_key_packet_rebuilds(rep, prog, 'C18.8')
+    families.check_copy_carries_serialised(rep, prog, 'C18.9')
     # C18.5 time idiom
     check_time_sites(rep, prog, 'C18.5', only=('PubKeyV4.fingerprint', 'PubKeyV4.__bytearray__'))
 
